@@ -354,11 +354,21 @@ fn drain<T>(cap: usize, mut next: impl FnMut() -> gimli::Result<Option<T>>) -> R
     for _ in 0..cap {
         match next() {
             Ok(Some(x)) => out.push(Ev::Item(x)),
-            Ok(None) => return Ok(out),
+            Ok(None) => {
+                // the end is final: the iterator must not resume behind the terminator
+                for _ in 0..2 {
+                    match next() {
+                        Ok(None) => {}
+                        Ok(Some(_)) => out.push(Ev::Error("ItemAfterEnd".into())),
+                        Err(_) => out.push(Ev::Error("ErrAfterEnd".into())),
+                    }
+                }
+                return Ok(out);
+            }
             Err(e) => out.push(Ev::Error(rerr(&e))),
         }
     }
-    Err(format!("no-end-after-{cap}-calls"))
+    Err("no-end-within-len-plus-2-calls".to_string())
 }
 
 struct Secs<'a> {
@@ -990,7 +1000,9 @@ fn lists_die(c: &Cfg, dwo: bool, root: &[(AName, AVal)], die: &[(AName, AVal)], 
         if oracle.is_none() {
             match (&want, &evs) {
                 (Some(Ok(single)), Some(got)) => {
-                    let w: Vec<Ev<Rangeish>> = single.iter().map(|(b, e)| Ev::Item((*b, *e, vec![]))).collect();
+                    // the single range counts only if it is non-empty and below the tombstones (-2, -1)
+                    let m: u128 = 1u128 << (8 * c.enc.address_size as u32);
+                    let w: Vec<Ev<Rangeish>> = single.iter().filter(|(b, e)| b < e && (*b as u128) < m - 2).map(|(b, e)| Ev::Item((*b, *e, vec![]))).collect();
                     if *got != w {
                         oracle = Some(format!("{which}-range-differs expected={}", cooked_text(&w)));
                     }
@@ -1009,11 +1021,9 @@ fn lists_die(c: &Cfg, dwo: bool, root: &[(AName, AVal)], die: &[(AName, AVal)], 
         }
         if oracle.is_none() {
             if let Some(got) = &evs {
-                // third sentence of C08 on the per-entry / per-unit helpers
+                // third sentence of C08 on the per-entry / per-unit helpers (list path and single range)
                 if let Some(w) = check_yield(c, got) {
-                    // without a usable DW_AT_ranges the result is the single low_pc..high_pc range
-                    let single = !attrs.iter().any(|(n, v)| *n == AName::Ranges && matches!(v, AVal::Sec(_) | AVal::Listx(_)));
-                    oracle = Some(format!("{which}-{}{w}", if single { "single-" } else { "" }));
+                    oracle = Some(format!("{which}-{w}"));
                 }
             }
         }
@@ -1071,6 +1081,131 @@ fn lists_die(c: &Cfg, dwo: bool, root: &[(AName, AVal)], die: &[(AName, AVal)], 
         unit.low_pc, unit.addr_base.0, unit.rnglists_base.0, unit.loclists_base.0
     );
     Some(with_oracle(t, oracle))
+}
+
+
+// ---------- cross-check against llvm-dwarfdump (`lists-dd`) ----------
+
+/// a minimal little-endian ELF64 relocatable object holding the given sections (no symbols,
+/// no relocations)
+fn elf_object(sections: &[(&str, &[u8])]) -> Vec<u8> {
+    let mut shstr: Vec<u8> = vec![0];
+    let mut names = Vec::new();
+    for (n, _) in sections {
+        names.push(shstr.len() as u32);
+        shstr.extend_from_slice(n.as_bytes());
+        shstr.push(0);
+    }
+    let shstr_name = shstr.len() as u32;
+    shstr.extend_from_slice(b".shstrtab\0");
+    let mut out = vec![0u8; 64];
+    let mut offs = Vec::new();
+    for (_, d) in sections {
+        offs.push(out.len() as u64);
+        out.extend_from_slice(d);
+    }
+    let shstr_off = out.len() as u64;
+    out.extend_from_slice(&shstr);
+    while out.len() % 8 != 0 {
+        out.push(0);
+    }
+    let shoff = out.len() as u64;
+    let sh = |name: u32, ty: u32, off: u64, size: u64| {
+        let mut h = Vec::new();
+        h.extend_from_slice(&name.to_le_bytes());
+        h.extend_from_slice(&ty.to_le_bytes());
+        h.extend_from_slice(&0u64.to_le_bytes()); // flags
+        h.extend_from_slice(&0u64.to_le_bytes()); // addr
+        h.extend_from_slice(&off.to_le_bytes());
+        h.extend_from_slice(&size.to_le_bytes());
+        h.extend_from_slice(&0u32.to_le_bytes()); // link
+        h.extend_from_slice(&0u32.to_le_bytes()); // info
+        h.extend_from_slice(&1u64.to_le_bytes()); // addralign
+        h.extend_from_slice(&0u64.to_le_bytes()); // entsize
+        h
+    };
+    let mut table = sh(0, 0, 0, 0);
+    for (i, (_, d)) in sections.iter().enumerate() {
+        table.extend(sh(names[i], 1, offs[i], d.len() as u64));
+    }
+    table.extend(sh(shstr_name, 3, shstr_off, shstr.len() as u64));
+    out.extend_from_slice(&table);
+    let shnum = sections.len() as u16 + 2;
+    let mut eh = Vec::new();
+    eh.extend_from_slice(&[0x7f, b'E', b'L', b'F', 2, 1, 1, 0, 0, 0, 0, 0, 0, 0, 0, 0]);
+    eh.extend_from_slice(&1u16.to_le_bytes()); // ET_REL
+    eh.extend_from_slice(&62u16.to_le_bytes()); // EM_X86_64
+    eh.extend_from_slice(&1u32.to_le_bytes());
+    eh.extend_from_slice(&0u64.to_le_bytes()); // entry
+    eh.extend_from_slice(&0u64.to_le_bytes()); // phoff
+    eh.extend_from_slice(&shoff.to_le_bytes());
+    eh.extend_from_slice(&0u32.to_le_bytes()); // flags
+    eh.extend_from_slice(&64u16.to_le_bytes()); // ehsize
+    eh.extend_from_slice(&0u16.to_le_bytes()); // phentsize
+    eh.extend_from_slice(&0u16.to_le_bytes()); // phnum
+    eh.extend_from_slice(&64u16.to_le_bytes()); // shentsize
+    eh.extend_from_slice(&shnum.to_le_bytes());
+    eh.extend_from_slice(&(shnum - 1).to_le_bytes()); // shstrndx
+    out[..64].copy_from_slice(&eh);
+    out
+}
+
+const DWARFDUMP: &str = "/usr/bin/llvm-dwarfdump";
+
+/// the `[begin, end)` pairs llvm-dwarfdump prints for attribute `at` of the DW_TAG_subprogram DIE
+fn dwarfdump_ranges(obj: &[u8], at: &str) -> Result<Vec<(u64, u64)>, String> {
+    let dir = std::env::current_exe().ok().and_then(|p| p.parent().map(|p| p.to_path_buf())).unwrap_or_else(std::env::temp_dir);
+    let path = dir.join(format!("c08-dd-{}.o", std::process::id()));
+    std::fs::write(&path, obj).map_err(|e| format!("write:{e}"))?;
+    let out = std::process::Command::new(DWARFDUMP).arg("--debug-info").arg(&path).output();
+    let _ = std::fs::remove_file(&path);
+    let out = out.map_err(|e| format!("spawn:{e}"))?;
+    let text = String::from_utf8_lossy(&out.stdout).to_string();
+    let Some(i) = text.find("DW_TAG_subprogram") else { return Err(format!("no-subprogram:{}", String::from_utf8_lossy(&out.stderr).replace(['\n', ' '], "_"))) };
+    let Some(j) = text[i..].find(at) else { return Err("no-attribute".into()) };
+    let mut res = Vec::new();
+    let mut depth = 0i32;
+    let body = &text[i + j + at.len()..];
+    let mut k = 0usize;
+    let b = body.as_bytes();
+    while k < b.len() {
+        match b[k] {
+            b'(' => depth += 1,
+            b')' => {
+                // `[x, y)` closes with ')' too: only a ')' that is not part of a range ends the value
+                depth -= 1;
+                if depth == 0 {
+                    break;
+                }
+            }
+            b'[' if depth == 1 => {
+                let end = body[k..].find(')').ok_or("unterminated")? + k;
+                let inner = &body[k + 1..end];
+                let (x, y) = inner.split_once(',').ok_or("range-syntax")?;
+                let p = |t: &str| u64::from_str_radix(t.trim().trim_start_matches("0x"), 16).map_err(|_| format!("number:{t}"));
+                res.push((p(x)?, p(y)?));
+                k = end;
+            }
+            b'e' if depth == 1 && body[k..].starts_with("error") => return Err("llvm-error".into()),
+            _ => {}
+        }
+        k += 1;
+    }
+    Ok(res)
+}
+
+/// `.debug_addr` / `.debug_rnglists` / `.debug_loclists` table header in front of `body`
+fn table_header(c: &Cfg, body_len: usize, offset_entry_count: Option<u32>) -> Vec<u8> {
+    let mut h = Vec::new();
+    let extra = if offset_entry_count.is_some() { 8 } else { 4 };
+    put_uint(&mut h, false, 4, (body_len + extra) as u64);
+    put_uint(&mut h, false, 2, 5);
+    h.push(c.enc.address_size);
+    h.push(0);
+    if let Some(n) = offset_entry_count {
+        put_uint(&mut h, false, 4, n as u64);
+    }
+    h
 }
 
 pub fn handle(op: &str, a: &[&str]) -> Option<String> {
@@ -1175,6 +1310,113 @@ pub fn handle(op: &str, a: &[&str]) -> Option<String> {
             let want = naive_get_address(&c, &sec, base, idx);
             let o = if want != r.ok() { Some(format!("address-differs expected={want:?}")) } else { None };
             Some(with_oracle(t, o))
+        }
+        ("lists-copyrel", [c, dwo_root, skel_root, addr]) => {
+            // a split unit (file type Dwo, no .debug_addr) takes the relocated attributes of its
+            // skeleton unit (main file)
+            use gimli::read::Dwarf;
+            use gimli::{DwarfFileType, SectionId};
+            let c = cfg(c)?;
+            let (dwo_root, skel_root) = (parse_attrs(dwo_root)?, parse_attrs(skel_root)?);
+            let addr = unhex(addr)?;
+            let e = c.endian();
+            let (sa, si) = build_unit(&c, false, &skel_root, &[])?;
+            let (da, di) = build_unit(&c, true, &dwo_root, &[])?;
+            let load = |abbrev: &'_ [u8], info: &'_ [u8], addr: &'_ [u8]| -> Option<gimli::DwarfSections<Vec<u8>>> {
+                gimli::DwarfSections::load(|id| -> Result<Vec<u8>, ()> {
+                    Ok(match id {
+                        SectionId::DebugAbbrev => abbrev.to_vec(),
+                        SectionId::DebugInfo => info.to_vec(),
+                        SectionId::DebugAddr => addr.to_vec(),
+                        _ => vec![],
+                    })
+                })
+                .ok()
+            };
+            let skel_owned = load(&sa, &si, &addr)?;
+            let dwo_owned = load(&da, &di, &[])?;
+            let skel_dwarf = skel_owned.borrow(|s| EndianSlice::new(&s[..], e));
+            let mut dwo_dwarf = dwo_owned.borrow(|s| EndianSlice::new(&s[..], e));
+            dwo_dwarf.file_type = DwarfFileType::Dwo;
+            fn unit_of<'a>(d: &Dwarf<R<'a>>) -> Result<gimli::read::Unit<R<'a>>, String> {
+                let h = match d.units().next() {
+                    Ok(Some(h)) => h,
+                    Ok(None) => return Err("err NoUnit".into()),
+                    Err(e) => return Err(format!("err {}", rerr(&e))),
+                };
+                d.unit(h).map_err(|e| format!("err {}", rerr(&e)))
+            }
+            let skel = match unit_of(&skel_dwarf) {
+                Ok(u) => u,
+                Err(t) => return Some(t),
+            };
+            let mut split = match unit_of(&dwo_dwarf) {
+                Ok(u) => u,
+                Err(t) => return Some(t),
+            };
+            let before = (split.rnglists_base.0, split.loclists_base.0);
+            split.copy_relocated_attributes(&skel);
+            let got = (split.low_pc, split.addr_base.0, split.rnglists_base.0, split.loclists_base.0);
+            // oracle: low_pc and addr_base always come from the skeleton, the ranges base only before DWARF 5
+            let want = (skel.low_pc, skel.addr_base.0, if c.enc.version < 5 { skel.rnglists_base.0 } else { before.0 }, before.1);
+            let o = if got != want { Some(format!("copy-relocated-differs expected={want:?}")) } else { None };
+            Some(with_oracle(format!("ok {},{},{},{}", got.0, got.1, got.2, got.3), o))
+        }
+        ("lists-dd", [c, dwo, root, die, addr, ranges, rnglists, loc, loclists]) => {
+            // same reply as `lists-die`; additionally the ranges llvm-dwarfdump resolves for the
+            // child DIE's DW_AT_ranges / DW_AT_location must be the ones gimli yields
+            let (c, dwo) = (cfg(c)?, flag(dwo)?);
+            let (rootv, diev) = (parse_attrs(root)?, parse_attrs(die)?);
+            let (addr, ranges, rnglists, loc, loclists) = (unhex(addr)?, unhex(ranges)?, unhex(rnglists)?, unhex(loc)?, unhex(loclists)?);
+            let secs = DieSecs { addr: &addr, ranges: &ranges, rnglists: &rnglists, loc: &loc, loclists: &loclists };
+            let reply = lists_die(&c, dwo, &rootv, &diev, &secs)?;
+            if reply.contains(" #oracle:") || c.big || dwo || !std::path::Path::new(DWARFDUMP).exists() {
+                return Some(reply);
+            }
+            let (abbrev, info) = build_unit(&c, dwo, &rootv, &diev)?;
+            let obj = elf_object(&[
+                (".debug_abbrev", &abbrev),
+                (".debug_info", &info),
+                (".debug_addr", &addr),
+                (".debug_ranges", &ranges),
+                (".debug_rnglists", &rnglists),
+                (".debug_loc", &loc),
+                (".debug_loclists", &loclists),
+            ]);
+            let parse_items = |field: &str| -> Option<Vec<(u64, u64)>> {
+                let t = reply.split(" | ").find_map(|p| p.strip_prefix(field))?;
+                let t = t.strip_prefix("ok ")?;
+                if t == "-" {
+                    return Some(vec![]);
+                }
+                t.split(';')
+                    .map(|it| {
+                        let it = it.strip_prefix("R:")?;
+                        let f: Vec<&str> = it.split(',').collect();
+                        Some((f.first()?.parse().ok()?, f.get(1)?.parse().ok()?))
+                    })
+                    .collect()
+            };
+            let mut o = None;
+            for (field, at) in [("die:", "DW_AT_ranges"), ("loc:", "DW_AT_location")] {
+                if !diev.iter().any(|(n, _)| *n == if at == "DW_AT_ranges" { AName::Ranges } else { AName::Loc }) {
+                    continue;
+                }
+                let Some(mine) = parse_items(field) else { continue };
+                match dwarfdump_ranges(&obj, at) {
+                    Ok(theirs) => {
+                        if theirs != mine {
+                            o = Some(format!("dwarfdump-differs {at} llvm={theirs:?} gimli={mine:?}"));
+                            break;
+                        }
+                    }
+                    Err(why) => {
+                        o = Some(format!("dwarfdump-failed {at} {why}"));
+                        break;
+                    }
+                }
+            }
+            Some(with_oracle(reply, o))
         }
         ("lists-die", [c, dwo, root, die, addr, ranges, rnglists, loc, loclists]) => {
             let (c, dwo) = (cfg(c)?, flag(dwo)?);
@@ -1504,6 +1746,20 @@ fn gen_die(g: &mut G, emit: &mut dyn FnMut(String)) {
         let d = die[g.rng.below(die.len() as u64) as usize];
         die.push(d);
     }
+    if g.rng.chance(1, 4) {
+        // split unit + skeleton unit: the root attributes generated above play the skeleton
+        let mut dwo_root: Vec<(AName, AVal)> = Vec::new();
+        if g.rng.chance(1, 3) {
+            dwo_root.push((AName::Low, AVal::Addr(g.address(s))));
+        }
+        if g.rng.chance(1, 3) {
+            dwo_root.push((if v5 { AName::RBase } else { AName::GRBase }, AVal::Sec(g.rng.below(64))));
+        }
+        if g.rng.chance(1, 3) {
+            dwo_root.push((AName::LBase, AVal::Sec(g.rng.below(64))));
+        }
+        emit(format!("lists-copyrel {} {} {} {}", c.text(), attrs_text(&dwo_root), attrs_text(&root), hex(&addr)));
+    }
     let (ranges, rnglists) = if v5 { (g.rng.bytes_below(5), rsec) } else { (rsec, g.rng.bytes_below(5)) };
     let (loc, loclists) = if v5 { (g.rng.bytes_below(5), lsec) } else { (lsec, g.rng.bytes_below(5)) };
     emit(format!(
@@ -1592,10 +1848,157 @@ fn gen_sweep(ctx: &Ctx, emit: &mut dyn FnMut(String)) {
     }
 }
 
+
+/// "ordinary" units for the llvm-dwarfdump cross-check: little-endian, not split, every entry
+/// denotes a non-empty range of small addresses (the two tools filter differently otherwise),
+/// valid table headers
+fn gen_dd(g: &mut G, emit: &mut dyn FnMut(String)) {
+    let s = *g.rng.pick(&[4u8, 8]);
+    let version = *g.rng.pick(&[2u16, 3, 4, 5, 5]);
+    let format = if g.rng.chance(1, 4) { Format::Dwarf64 } else { Format::Dwarf32 };
+    let c = Cfg { big: false, enc: Encoding { address_size: s, format, version } };
+    let v5 = version >= 5;
+    let word: usize = if format == Format::Dwarf64 { 8 } else { 4 };
+    // sorted address table
+    let ntbl = 2 + g.rng.below(4);
+    let mut tbl: Vec<u64> = Vec::new();
+    let mut a = 0x1000 + g.rng.below(0x1000);
+    for _ in 0..ntbl {
+        tbl.push(a);
+        a += 1 + g.rng.below(0x800);
+    }
+    let mut addr_body = Vec::new();
+    for t in &tbl {
+        put_uint(&mut addr_body, false, s as usize, *t);
+    }
+    let mut addr = table_header(&c, addr_body.len(), None);
+    let ab = addr.len() as u64;
+    addr.extend_from_slice(&addr_body);
+    let low_pc = 0x10_0000 + 0x1000 * g.rng.below(16);
+    let mk_list = |g: &mut G, k: Kind| -> Vec<Ent> {
+        let n = 1 + g.rng.below(4);
+        let mut out = Vec::new();
+        let d = |g: &mut G| if k == Kind::Loc { vec![0x50 + g.rng.below(16) as u8] } else { vec![] };
+        for _ in 0..n {
+            let lo = 1 + g.rng.below(0x4000);
+            let len = 1 + g.rng.below(0x100);
+            if !v5 {
+                if g.rng.chance(1, 4) {
+                    out.push(Ent::Base(0x20_0000 + 0x100 * g.rng.below(64)));
+                }
+                out.push(Ent::Pair(lo, lo + len, d(g)));
+                continue;
+            }
+            match g.rng.below(7) {
+                0 => out.push(Ent::Base(0x20_0000 + 0x100 * g.rng.below(64))),
+                1 => out.push(Ent::Basex(g.rng.below(ntbl))),
+                2 => {
+                    let i = g.rng.below(ntbl - 1);
+                    let j = i + 1 + g.rng.below(ntbl - 1 - i);
+                    out.push(Ent::XX(i, j, d(g)));
+                }
+                3 => out.push(Ent::XL(g.rng.below(ntbl), len, d(g))),
+                4 => out.push(Ent::OP(lo, lo + len, d(g))),
+                5 => out.push(Ent::SE(0x30_0000 + lo, 0x30_0000 + lo + len, d(g))),
+                _ => out.push(Ent::SL(0x30_0000 + lo, len, d(g))),
+            }
+        }
+        out
+    };
+    // (section bytes, attribute value of the child DIE)
+    let build = |g: &mut G, k: Kind| -> Option<(Vec<u8>, AVal, u64)> {
+        let nl = 1 + g.rng.below(3) as usize;
+        let lists: Vec<Vec<Ent>> = (0..nl).map(|_| mk_list(g, k)).collect();
+        let pick = g.rng.below(nl as u64) as usize;
+        // every range-denoting entry of the picked list must be kept by the Spec
+        let denoting = lists[pick].iter().filter(|e| !matches!(e, Ent::Base(_) | Ent::Basex(_))).count();
+        let res = spec_resolve(&c, &addr, ab, low_pc, &lists[pick]);
+        if res.len() != denoting || res.iter().any(|d| *d == Den::Undef) {
+            return None;
+        }
+        let enc: Vec<Vec<u8>> = lists.iter().map(|l| encode_list(k, &c, v5, l)).collect::<Option<_>>()?;
+        if !v5 {
+            let mut sec = Vec::new();
+            let mut off = 0;
+            for (i, l) in enc.iter().enumerate() {
+                if i == pick {
+                    off = sec.len() as u64;
+                }
+                sec.extend_from_slice(l);
+            }
+            return Some((sec, AVal::Sec(off), 0));
+        }
+        let mut body = Vec::new();
+        let mut rel = (nl * word) as u64;
+        for l in &enc {
+            put_uint(&mut body, false, word, rel);
+            rel += l.len() as u64;
+        }
+        let mut offs = Vec::new();
+        for l in &enc {
+            offs.push(body.len() as u64);
+            body.extend_from_slice(l);
+        }
+        // DWARF64 tables have a 12-byte initial length
+        let mut sec = Vec::new();
+        if word == 8 {
+            put_uint(&mut sec, false, 4, 0xffff_ffff);
+            put_uint(&mut sec, false, 8, (body.len() + 8) as u64);
+        } else {
+            put_uint(&mut sec, false, 4, (body.len() + 8) as u64);
+        }
+        put_uint(&mut sec, false, 2, 5);
+        sec.push(s);
+        sec.push(0);
+        put_uint(&mut sec, false, 4, nl as u64);
+        let base = sec.len() as u64;
+        sec.extend_from_slice(&body);
+        let v = if g.rng.chance(1, 2) { AVal::Listx(pick as u64) } else { AVal::Sec(base + offs[pick]) };
+        Some((sec, v, base))
+    };
+    let Some((rsec, rv, rbase)) = build(g, Kind::Rng) else { return };
+    let Some((lsec, lv, lbase)) = build(g, Kind::Loc) else { return };
+    let mut root = vec![(AName::Low, AVal::Addr(low_pc))];
+    if v5 {
+        root.push((AName::ABase, AVal::Sec(ab)));
+        root.push((AName::RBase, AVal::Sec(rbase)));
+        root.push((AName::LBase, AVal::Sec(lbase)));
+    }
+    let mut die = Vec::new();
+    if g.rng.chance(3, 4) {
+        die.push((AName::Ranges, rv));
+    }
+    if g.rng.chance(3, 4) {
+        die.push((AName::Loc, lv));
+    }
+    let e = vec![];
+    let (ranges, rnglists) = if v5 { (&e, &rsec) } else { (&rsec, &e) };
+    let (loc, loclists) = if v5 { (&e, &lsec) } else { (&lsec, &e) };
+    emit(format!(
+        "lists-dd {} 0 {} {} {} {} {} {} {}",
+        c.text(),
+        attrs_text(&root),
+        attrs_text(&die),
+        hex(if v5 { &addr } else { &e }),
+        hex(ranges),
+        hex(rnglists),
+        hex(loc),
+        hex(loclists)
+    ));
+}
+
 pub fn gen(ctx: &Ctx, emit: &mut dyn FnMut(String)) {
     gen_sweep(ctx, emit);
+    {
+        // corpus-style lists cross-checked with llvm-dwarfdump (one process per case)
+        let mut rng = ctx.rng(80);
+        for _ in 0..ctx.n(8, 150) {
+            let mut g = G { rng: &mut rng };
+            gen_dd(&mut g, emit);
+        }
+    }
     let mut rng = ctx.rng(8);
-    let n = ctx.n(9000, 400_000);
+    let n = ctx.n(9000, 100_000);
     for i in 0..n {
         let mut g = G { rng: &mut rng };
         let c = g.cfg();
